@@ -605,11 +605,70 @@ def run_timeline(pair, rng, variant, opts):
     return tr
 
 
+# ------------------------------------------------------------------------------------------
+# deploy
+# ------------------------------------------------------------------------------------------
+
+def run_deploy(pair, rng, variant, opts):
+    """deployment arguments around every validity boundary (each deploy starts a fresh world)"""
+    tr = Trace(pair, f"deploy-{variant}")
+    tr.dump_addrs = [OWNER, SUPPORT, 10, STRANGER]
+    tr.bound = 8
+    for _ in range(opts.get("n", 12)):
+        good = dict(lp=LP_TOK, per=100, paytok=rng.pick([0, PAY_TOK]), price=10, nrw=2, conf=10, sel=20, claim=30,
+                    minc=1, lockpct=5000, unlock=50, lockaddr=LOCK, cost=(rng.pick([0, FEE_TOK]), 0, 5), avail=2,
+                    rnd=0, epoch=rng.pick([0, 7]))
+        a = dict(good)
+        for _k in range(rng.pick([0, 1, 1, 1, 2])):
+            which = rng.below(14)
+            if which == 0:
+                a["price"] = rng.pick([0, 1])
+            elif which == 1:
+                a["per"] = rng.pick([0, 1])
+            elif which == 2:
+                a["nrw"] = rng.pick([0, 1])
+            elif which == 3:
+                a["conf"], a["sel"], a["claim"] = rng.pick([(10, 10, 30), (10, 20, 20), (10, 20, 19), (20, 10, 30),
+                                                            (0, 1, 1), (5, 6, 6), (10, 9, 9)])
+            elif which == 4:
+                a["paytok"] = rng.pick([LP_TOK, 1, 0, OTHER_TOK])
+            elif which == 5:
+                a["minc"] = rng.pick([0, 1, 5])
+            elif which == 6:
+                a["lockpct"] = rng.pick([0, 1, 9999, 10000, 10001, 4294967295])
+            elif which == 7:
+                a["unlock"] = rng.pick([0, a["epoch"], a["epoch"] + 1, a["epoch"] - 1 if a["epoch"] else 0])
+            elif which == 8:
+                a["lockaddr"] = rng.pick([0, 10, LOCK, CCALLER])
+            elif which == 9:
+                a["cost"] = rng.pick([(0, 1, 5), (0, 0, 0), (1, 0, 5), (FEE_TOK, 3, 5), (FEE_TOK, 0, 0), (LP_TOK, 0, 5)])
+            elif which == 10:
+                a["avail"] = rng.pick([0, 1])
+            elif which == 11:
+                a["rnd"] = rng.pick([0, 10, 25])
+            elif which == 12:
+                a["lp"] = rng.pick([LP_TOK, PAY_TOK])
+            else:
+                a["price"] = 10 ** 30
+        tr.round, tr.epoch = a["rnd"], a["epoch"]
+        line = deploy_line(variant, OWNER, a["rnd"], a["epoch"], a["lp"], a["per"], a["paytok"], a["price"], a["nrw"],
+                           a["conf"], a["sel"], a["claim"], minc=a["minc"], lockpct=a["lockpct"], unlock=a["unlock"],
+                           lockaddr=a["lockaddr"], cost=a["cost"], avail=a["avail"])
+        r = tr.send(line)
+        if r.startswith("R ok"):
+            tr.dump()
+            # the deployed contract is usable: one allocation and a deposit probe
+            tr.call(OWNER, alloc_ep(variant), alloc_args(variant, [(10, 2)]))
+            tr.call(OWNER, "deposit", esdts=[(a["lp"], 0, a["per"] * a["nrw"])], probe=True)
+            tr.dump()
+    return tr
+
+
 def run_life(pair, rng, variant, opts):
     tr = Trace(pair, f"life-{variant}")
     Life(tr, rng, variant, opts).run()
     return tr
 
 
-RUNNERS = {"life": run_life, "fy": run_fy, "chunks": run_chunks, "perm": run_perm, "alloc": run_alloc,
+RUNNERS = {"deploy": run_deploy, "life": run_life, "fy": run_fy, "chunks": run_chunks, "perm": run_perm, "alloc": run_alloc,
            "timeline": run_timeline}
